@@ -118,6 +118,8 @@ def unit_stft(prop, which):
         contract = getattr(C, "contract_" + which)()
         setups = [(m, getattr(C, "setup_" + which)(m, known)) for m in C.MODES]
         to_case, rm = (C.to_case_c04, "rtc.c04") if prop == "C04" else (getattr(C, "to_case_" + which, None), "rtc.c01")
+        if prop == "C02" and which == "full":
+            to_case, rm = C.to_case_full_c02, "rtc.c02"
         return run_contract(prop, ("compute", f"{C.CLS}.{'compute_' + which if which in ('full', 'chunk') else which}"), contract, setups,
                             name="stft_" + which, to_case=to_case, replay_module=rm)
     unit.__name__ = "stft_" + which
